@@ -273,9 +273,14 @@ void NodeEvent::createStraightConstraints(OpenSegments& openSegments,
             continue;
         } 
         const double p = s->forwardIntersection(scanDim, pos);
-        if ( (p<leftLimit&&pos>leftNeighbour->rect->getMinD(vpsc::conjugate(scanDim))&&
+        // a neighbour only hides the segment if the segment is not attached
+        // to it: a segment ending in the neighbour's centre can swing out
+        // from behind it.
+        if ( (p<leftLimit&&!s->connectedToNode(leftNeighbour)&&
+                pos>leftNeighbour->rect->getMinD(vpsc::conjugate(scanDim))&&
                 pos<leftNeighbour->rect->getMaxD(vpsc::conjugate(scanDim)))
-          || (p>rightLimit&&pos>rightNeighbour->rect->getMinD(vpsc::conjugate(scanDim))&&
+          || (p>rightLimit&&!s->connectedToNode(rightNeighbour)&&
+                pos>rightNeighbour->rect->getMinD(vpsc::conjugate(scanDim))&&
                 pos<rightNeighbour->rect->getMaxD(vpsc::conjugate(scanDim))) )
         { 
             FILE_LOG(logDEBUG1)<<
